@@ -77,9 +77,34 @@ pub fn file_block(kind: &str, lines: &[String]) -> String {
     s
 }
 
-/// Forget all enumeration cursors.  A panic inside `Ddnnf::enumerate` while the cursor lock is held
-/// poisons the process-global mutex; the reset must not take the harness down with it (the
-/// poisoned lock shows up as PANIC answers of every later enumeration, which the oracles report).
-pub fn reset_cursor() {
-    let _ = guarded(ddnnife::ddnnf::anomalies::config_creation::verif::reset_enumeration_cache);
+/// Whether the ddnnife this harness is built against keeps the enumeration cursor per loaded
+/// model (repair F21 + hook H3b).  Before that the cursor was one process-global map (finding K2).
+pub const CURSOR_PER_MODEL: bool = cfg!(has_h3b);
+
+/// Forget the enumeration cursors of THIS model (and of its clones, which share them): only for a
+/// long-lived instance that is reused across independent measurements.  A freshly loaded instance
+/// has a fresh cursor and needs no reset.  Works on a poisoned cursor lock as well (a panic inside
+/// `Ddnnf::enumerate` while the lock is held); the poisoned lock then shows up as PANIC answers
+/// of the later enumerations on this instance, which the oracles report.
+/// Built against a ddnnife without H3b this falls back to the reset of the process-global map.
+pub fn reset_cursor(d: &Ddnnf) {
+    #[cfg(has_h3b)]
+    d.verif_reset_enumeration_cursor();
+    #[cfg(not(has_h3b))]
+    {
+        let _ = d;
+        let _ = guarded(ddnnife::ddnnf::anomalies::config_creation::verif::reset_enumeration_cache);
+    }
+}
+
+/// The cursor of every assumption key of THIS model (hook H3b; the process-global map before it).
+#[cfg(has_h3)]
+pub fn cursor_snapshot(d: &Ddnnf) -> Vec<(Vec<i32>, usize)> {
+    #[cfg(has_h3b)]
+    return d.verif_enumeration_cursor_snapshot();
+    #[cfg(not(has_h3b))]
+    {
+        let _ = d;
+        ddnnife::ddnnf::anomalies::config_creation::verif_enumeration_cache_snapshot()
+    }
 }
